@@ -777,7 +777,7 @@ def rule_member_access(chk, prog, tier):
                 for (mn, mty), o in zip(t[1], offsets(t)):
                     m = Obj('member:%s' % mn, 'heap')
                     m.f.update({('name',): Ptr(it.mkstr(list(mn.encode()), mn), (0,)) if mn else None, ('type',): build(mty), ('qual',): 0, ('offset',): o,
-                                ('bits', 'before'): 0, ('bits', 'after'): 0, ('next',): None})
+                                ('bits', 'before'): 0, ('bits', 'after'): 0, ('bitfield',): 0, ('next',): None})
                     if prev is None: ty.obj.f[('u', 'structunion', 'members')] = Ptr(m, ())
                     else: prev.f[('next',)] = Ptr(m, ())
                     prev = m
@@ -787,7 +787,7 @@ def rule_member_access(chk, prog, tier):
                 for mn, o, bb, ba in BF:
                     m = Obj('member:%s' % mn, 'heap')
                     m.f.update({('name',): Ptr(it.mkstr(list(mn.encode()), mn), (0,)), ('type',): w.t('uint' if mn != 'd' else 'int'), ('qual',): 0, ('offset',): o,
-                                ('bits', 'before'): bb, ('bits', 'after'): ba, ('next',): None})
+                                ('bits', 'before'): bb, ('bits', 'after'): ba, ('bitfield',): int(mn != 'd'), ('next',): None})
                     if prev is None: st.obj.f[('u', 'structunion', 'members')] = Ptr(m, ())
                     else: prev.f[('next',)] = Ptr(m, ())
                     prev = m
